@@ -753,6 +753,16 @@ impl FinishedSession {
             anyhow::bail!("Store is poisoned due to prior error");
         }
 
+        // The changeset must still be valid before anything is recorded for it: a rejected commit
+        // must not leave its reverse delta in the rollback log.
+        if nomt.shared.lock().root != self.prev_root {
+            anyhow::bail!(
+                "Changeset no longer valid (expected previous root {:?}, got {:?})",
+                self.prev_root,
+                nomt.shared.lock().root
+            );
+        }
+
         if let Some(rollback_delta) = self.rollback_delta {
             // UNWRAP: if rollback_delta is `Some`, then rollback must be also `Some`.
             let rollback = nomt.store.rollback().unwrap();
@@ -771,14 +781,8 @@ impl FinishedSession {
         }
 
         {
+            // we hold the write guard: the root cannot have changed since the check above.
             let mut shared = nomt.shared.lock();
-            if shared.root != self.prev_root {
-                anyhow::bail!(
-                    "Changeset no longer valid (expected previous root {:?}, got {:?})",
-                    self.prev_root,
-                    shared.root
-                );
-            }
             shared.root = Root(self.merkle_output.root);
             shared.last_commit_marker = None;
         }
